@@ -653,6 +653,54 @@ func c05R1Wiring(c *Ctx) {
 		var n, r ssa.Value
 		if lr != nil {
 			n, r = fieldStore(lr, "N"), fieldStore(lr, "R")
+		} else if bfa, isFA := strip(base).(*ssa.FieldAddr); isFA && bfa.X == ssa.Value(al) {
+			// the limited reader is embedded by value in the struct under construction (base = &vr.limited): its fields
+			// are assigned through &vr.limited.F, or by a whole-struct store of a literal (vr.limited = io.LimitedReader{...})
+			embedded := func(field string) ssa.Value {
+				var val ssa.Value
+				cnt := 0
+				reaches := func(st *ssa.Store) bool {
+					return (st.Block() == a.Ret.Block() && instrIndex(st) < instrIndex(a.Ret)) || reach(st.Block(), instrIndex(st)+1, a.Ret, nil)
+				}
+				for _, ref := range *al.Referrers() {
+					fa2, ok := ref.(*ssa.FieldAddr)
+					if !ok || fa2.Field != bfa.Field {
+						continue
+					}
+					for _, r2 := range *fa2.Referrers() {
+						switch u := r2.(type) {
+						case *ssa.FieldAddr:
+							if c05FieldNameOf(u.X.Type(), u.Field) != field {
+								continue
+							}
+							for _, r3 := range *u.Referrers() {
+								if st, isSt := r3.(*ssa.Store); isSt && st.Addr == ssa.Value(u) && reaches(st) {
+									val = st.Val
+									cnt++
+								}
+							}
+						case *ssa.Store:
+							if u.Addr != ssa.Value(fa2) || !reaches(u) {
+								continue
+							}
+							cnt++
+							val = nil
+							if ld, isLd := u.Val.(*ssa.UnOp); isLd && ld.Op == token.MUL {
+								if tmp, isTmp := ld.X.(*ssa.Alloc); isTmp {
+									if v, amb := fieldStoreAt(tmp, field, ld); !amb {
+										val = v
+									}
+								}
+							}
+						}
+					}
+				}
+				if cnt != 1 {
+					return nil
+				}
+				return val
+			}
+			n, r = embedded("N"), embedded("R")
 		}
 		okN := n != nil && c05FieldOfParam(n, "Size") == descParam
 		c.Check(R, tn+"|limit-is-descriptor-size", a.Ret.Pos(), okN,
@@ -1988,6 +2036,41 @@ func c05AddProvenance(c *Ctx, R string) {
 							}
 						}
 					}
+					// hashing by copying: io.Copy / io.CopyBuffer(digester.Hash(), <the file opened at the recorded path>), the
+					// digest read behind the copy's err==nil edge (what digest.FromReader does, with a caller-provided buffer)
+					if !okP {
+						for _, cp := range CallsTo(f, "io.Copy", "io.CopyBuffer") {
+							ca := cp.Common().Args
+							hc, isH := strip(ca[0]).(*ssa.Call)
+							if !isH || CalleeName(hc) != "(digest.Digester).Hash" || hc.Call.Value != dg {
+								continue
+							}
+							fromFile := false
+							AllInstrs(f, func(in ssa.Instruction) {
+								oc, isC := in.(*ssa.Call)
+								if !isC || CalleeName(oc) != "os.Open" || !SameValue(oc.Call.Args[0], val) {
+									return
+								}
+								if fpv := ResultOf(oc, 0); fpv != nil && c05WrapsValue(ca[1], fpv, 0) {
+									fromFile = true
+								}
+							})
+							if !fromFile {
+								continue
+							}
+							okP = MustPass(k, newCut().Edges(c05NilEdgesOf(cp)...))
+							detail = "key = Digest() of the hash the file opened at the recorded path was copied into, read behind the copy's err==nil edge"
+							if !okP {
+								detail = "the digest is read although copying the file into the hash may have failed: it need not cover the recorded file"
+							}
+							// nothing else may be written into that hash
+							for _, r := range *dg.Referrers() {
+								if oh, isC := r.(*ssa.Call); isC && oh != hc && oh != k && CalleeName(oh) == "(digest.Digester).Hash" {
+									okP, detail = false, "the digester's hash is also used elsewhere: the digest may cover more than the recorded file"
+								}
+							}
+						}
+					}
 					if okP && teeCall != nil {
 						// bytes reach the file and the hash through a buffering compressor: the digest must be
 						// read only after that writer was closed/flushed successfully
@@ -2020,6 +2103,56 @@ func c05AddProvenance(c *Ctx, R string) {
 			c.Check(R, fname+"|recorded-digest-is-computed-over-recorded-file", call.Pos(), okP, detail)
 		}
 	}
+}
+
+// c05WrapsValue: v is `want`, possibly converted to an interface, held in a local variable, or wrapped in a local struct
+// literal all of whose fields are (wrappers of) it: struct{ io.Reader }{fp}.
+func c05WrapsValue(v, want ssa.Value, depth int) bool {
+	if depth > 4 {
+		return false
+	}
+	rs := Roots(v)
+	if len(rs) == 0 {
+		return false
+	}
+	for _, r := range rs {
+		r = strip(r)
+		if r == want {
+			continue
+		}
+		ld, ok := r.(*ssa.UnOp)
+		if !ok || ld.Op != token.MUL {
+			return false
+		}
+		al, ok := ld.X.(*ssa.Alloc)
+		if !ok {
+			return false
+		}
+		if _, isStruct := al.Type().(*types.Pointer).Elem().Underlying().(*types.Struct); !isStruct {
+			return false
+		}
+		n := 0
+		for _, ref := range *al.Referrers() {
+			switch u := ref.(type) {
+			case *ssa.FieldAddr:
+				for _, r2 := range *u.Referrers() {
+					if st, isSt := r2.(*ssa.Store); isSt && st.Addr == ssa.Value(u) {
+						n++
+						if !c05WrapsValue(st.Val, want, depth+1) {
+							return false
+						}
+					}
+				}
+			case *ssa.UnOp, *ssa.DebugRef:
+			default:
+				return false
+			}
+		}
+		if n == 0 {
+			return false
+		}
+	}
+	return true
 }
 
 // c05Creators: callees that create a name in the file system.
